@@ -239,7 +239,7 @@ func (p *ocrPlugin) Report(ctx context.Context, t types.ReportTimestamp, _ types
 	toPerform := make([]UpkeepResult, 0, len(checkedUpkeeps))
 
 	for _, result := range checkedUpkeeps {
-		if ok, err := p.encoder.Eligible(result); err != nil && ok {
+		if ok, err := p.encoder.Eligible(result); err != nil || !ok {
 			continue
 		}
 
